@@ -427,6 +427,16 @@ Proof.
   - exfalso. apply H3. rewrite in_map_iff. exists s1. auto.
 Qed.
 
+Lemma se_nodup_key_unique : forall tbl s1 s2,
+  NoDup (map ss_key tbl) -> In s1 tbl -> In s2 tbl -> ss_key s1 = ss_key s2 -> s1 = s2.
+Proof.
+  induction tbl as [|x r IH]; cbn [map In]; intros s1 s2 ND H1 H2 E; [tauto|].
+  inversion ND; subst.
+  destruct H1 as [H1|H1]; destruct H2 as [H2|H2]; subst; auto.
+  - exfalso. apply H3. rewrite in_map_iff. exists s2. auto.
+  - exfalso. apply H3. rewrite in_map_iff. exists s1. auto.
+Qed.
+
 Lemma se_filter_nodup : forall (A : Type) (g : se_sess -> A) q tbl,
   NoDup (map g tbl) -> NoDup (map g (filter q tbl)).
 Proof.
@@ -1049,4 +1059,335 @@ Proof.
   apply in_split in Hd. destruct Hd as (pre & rest & E).
   destruct (se_ok_del_then_free log Hok pre s rest E) as [(rest' & Er) _].
   subst. apply in_or_app. right. right. left. reflexivity.
+Qed.
+
+(* ================================================================== theorems about every history *)
+
+(* the model's own event log is accepted by the monitor *)
+Theorem se_run_log_ok : forall c ops st,
+  se_run c se_init ops = Some st -> se_log_ok (st_log st) = true.
+Proof.
+  intros c ops st H. unfold se_log_ok.
+  destruct (se_reachable c ops st H) as [[Hinv _] | [(_ & _ & m & Hm & Hp & _) _]].
+  - destruct Hinv as (_ & _ & _ & _ & _ & m & Hm & Hp & _). rewrite Hm, Hp. reflexivity.
+  - rewrite Hm, Hp. reflexivity.
+Qed.
+
+(* ref = number of holders, in every reachable state *)
+Theorem se_ref_counts_holders : forall c ops st s,
+  se_run c se_init ops = Some st -> In s (st_tbl st) ->
+  ss_ref s = Z.of_nat (length (ss_holders s)).
+Proof.
+  intros c ops st s H Hin.
+  destruct (se_reachable c ops st H) as [[Hinv _] | [(Ht & _) _]].
+  - destruct Hinv as (_ & _ & _ & Hh & _). rewrite Forall_forall in Hh. auto.
+  - rewrite Ht in Hin. inversion Hin.
+Qed.
+
+(* one session per peer, one peer per session, identities never reused *)
+Theorem se_table_injective : forall c ops st s1 s2,
+  se_run c se_init ops = Some st -> In s1 (st_tbl st) -> In s2 (st_tbl st) ->
+  (ss_key s1 = ss_key s2 <-> s1 = s2) /\ (ss_id s1 = ss_id s2 <-> s1 = s2).
+Proof.
+  intros c ops st s1 s2 H H1 H2.
+  destruct (se_reachable c ops st H) as [[Hinv _] | [(Ht & _) _]];
+    [|rewrite Ht in H1; inversion H1].
+  destruct Hinv as (Hk & Hi & _).
+  split; split; try (intros; subst; reflexivity).
+  - intros E. eapply se_nodup_key_unique; eauto.
+  - intros E. eapply se_nodup_id_unique; eauto.
+Qed.
+
+Lemma se_holders_nil : forall s, ss_ref s = Z.of_nat (length (ss_holders s)) -> ss_ref s = 0 ->
+  ss_holders s = [].
+Proof. intros s E E0. destruct (ss_holders s); [reflexivity | cbn [length] in E; lia]. Qed.
+
+Lemma se_idle_true : forall s, se_idle s = true -> ss_ref s = 0 /\ ss_dq s = true.
+Proof.
+  intros s H. unfold se_idle in H. apply andb_true_iff in H. destruct H as [H1 H2].
+  split; [lia | exact H2].
+Qed.
+
+(* a session is released only when the reclaim rule says so; in particular never while it
+   has a holder *)
+Theorem se_reclaim_rule : forall c ops st op sid,
+  se_run c se_init ops = Some st -> se_op_ok st op = true ->
+  In (SeFree sid) (se_new_events c st op) ->
+  exists s, In s (st_tbl st) /\ ss_id s = sid /\
+    match op with
+    | OpPrepare now =>
+        ss_ref s = 0 /\ ss_holders s = [] /\ ss_dq s = true /\
+        (ss_last s + se_timeout_ticks c <= now \/ ss_state s = se_state_none)
+    | OpRx key now =>
+        se_find key (st_tbl st) = None /\
+        0 < cf_max_idle c <= se_count_idle (st_tbl st) /\
+        ss_ref s = 0 /\ ss_holders s = [] /\ ss_dq s = true /\
+        (forall s', In s' (st_tbl st) -> se_idle s' = true -> ss_last s <= ss_last s')
+    | OpFreeContext => ~ In se_h_app (ss_holders s)
+    | _ => False
+    end.
+Proof.
+  intros c ops st op sid H Hok Hin.
+  assert (Href: forall s, In s (st_tbl st) -> ss_ref s = Z.of_nat (length (ss_holders s))).
+  { intros s Hs. eapply se_ref_counts_holders; eauto. }
+  destruct op; cbn [se_new_events] in Hin; try (inversion Hin; fail).
+  - (* OpRx *)
+    destruct (se_find key (st_tbl st)) eqn:Hf.
+    + cbn [In] in Hin. destruct Hin as [E|[]]. discriminate.
+    + unfold se_rx_evict in Hin.
+      destruct (Z.ltb_spec 0 (cf_max_idle c)); cbn [andb] in Hin.
+      * destruct (Z.leb_spec (cf_max_idle c) (se_count_idle (st_tbl st))).
+        -- destruct (se_oldest (st_tbl st)) as [o|] eqn:Ho.
+           ++ cbn [app In] in Hin.
+              destruct Hin as [E|[E|[E|[E|[]]]]]; try discriminate. inversion E; subst sid.
+              apply se_oldest_spec in Ho. destruct Ho as (Hi & Hidle & Hmin).
+              destruct (se_idle_true o Hidle) as [R0 Dq].
+              exists o. splits; auto. apply se_holders_nil; auto.
+           ++ cbn [app In] in Hin. destruct Hin as [E|[E|[]]]; discriminate.
+        -- cbn [app In] in Hin. destruct Hin as [E|[E|[]]]; discriminate.
+      * cbn [app In] in Hin. destruct Hin as [E|[E|[]]]; discriminate.
+  - (* OpPrepare *)
+    apply se_sweep_free_iff in Hin. destruct Hin as (s & Hs & E & Ex).
+    exists s. splits; auto; unfold se_expired in Ex; apply andb_true_iff in Ex; destruct Ex as [Ei Et];
+      destruct (se_idle_true s Ei) as [R0 Dq]; auto.
+    + apply se_holders_nil; auto.
+    + apply orb_true_iff in Et. destruct Et as [Et|Et]; [left; lia | right; unfold se_state_none in *; lia].
+  - (* OpFreeContext *)
+    apply se_sweep_free_iff in Hin. destruct Hin as (s' & Hs' & E & Ex).
+    rewrite in_map_iff in Hs'. destruct Hs' as (s & Ed & Hs). subst s'.
+    exists s. splits; auto.
+    intro Happ. cbn [se_drop_lib ss_ref] in Ex. rewrite (Href s Hs) in Ex.
+    assert (0 < Z.of_nat (length (filter (fun h => h =? se_h_app) (ss_holders s)))).
+    { assert (In se_h_app (filter (fun h => h =? se_h_app) (ss_holders s))).
+      { apply filter_In. split; [exact Happ | apply Z.eqb_refl]. }
+      destruct (filter (fun h => h =? se_h_app) (ss_holders s)); [inversion H0 | cbn [length]; lia]. }
+    lia.
+Qed.
+
+(* the scan reclaims exactly the sessions the rule names *)
+Theorem se_prepare_complete : forall c st now s,
+  In s (st_tbl st) ->
+  (se_expired c now s = true ->
+     In (SeDel (ss_id s)) (se_new_events c st (OpPrepare now)) /\
+     In (SeFree (ss_id s)) (se_new_events c st (OpPrepare now))) /\
+  (se_expired c now s = false -> In s (st_tbl (se_step c st (OpPrepare now)))) /\
+  (forall s', In s' (st_tbl (se_step c st (OpPrepare now))) ->
+              In s' (st_tbl st) /\ se_expired c now s' = false).
+Proof.
+  intros c st now s Hs. cbn [se_new_events se_step]. unfold se_prepare. rewrite se_scan_sweep.
+  cbn [st_tbl]. splits.
+  - intros Ex. assert (Hf: In (SeFree (ss_id s)) (se_sweep_ev (se_expired c now) (st_tbl st))).
+    { apply se_sweep_free_iff. eauto. }
+    split; auto. clear Hf. induction (st_tbl st) as [|x r IH]; [inversion Hs|].
+    cbn [se_sweep_ev]. destruct Hs as [E|Hs].
+    + subst x. rewrite Ex. left; auto.
+    + destruct (se_expired c now x); [right; right|]; auto.
+  - intros Ex. apply filter_In. split; auto. rewrite Ex. reflexivity.
+  - intros s' Hs'. apply filter_In in Hs'. destruct Hs' as [H1 H2]. split; auto.
+    destruct (se_expired c now s'); [discriminate | reflexivity].
+Qed.
+
+(* the idle limit: when it is reached a new peer pushes out the oldest idle session, and
+   only then *)
+Theorem se_evict_complete : forall c st key now,
+  se_find key (st_tbl st) = None ->
+  (0 < cf_max_idle c <= se_count_idle (st_tbl st) ->
+     exists o, se_oldest (st_tbl st) = Some o /\
+       se_new_events c st (OpRx key now) =
+       [SeDel (ss_id o); SeFree (ss_id o); SeNew (st_next st) key; SeRx key (st_next st)]) /\
+  (~ (0 < cf_max_idle c <= se_count_idle (st_tbl st)) ->
+     se_new_events c st (OpRx key now) = [SeNew (st_next st) key; SeRx key (st_next st)]).
+Proof.
+  intros c st key now Hf. cbn [se_new_events]. rewrite Hf. unfold se_rx_evict. split.
+  - intros [H1 H2]. destruct (se_oldest_exists (st_tbl st)) as (o & Ho); [lia|].
+    exists o. split; auto.
+    assert (0 <? cf_max_idle c = true) as -> by lia.
+    assert (cf_max_idle c <=? se_count_idle (st_tbl st) = true) as -> by lia.
+    cbn [andb]. rewrite Ho. reflexivity.
+  - intros Hn.
+    destruct (Z.ltb_spec 0 (cf_max_idle c)); cbn [andb]; [|reflexivity].
+    destruct (Z.leb_spec (cf_max_idle c) (se_count_idle (st_tbl st))); [lia | reflexivity].
+Qed.
+
+(* same peer -> same session, as long as that session has not been released *)
+Theorem se_rx_same_session : forall c ops st key sid now,
+  se_run c se_init ops = Some st -> st_alive st = true ->
+  In (SeRx key sid) (st_log st) -> ~ In (SeDel sid) (st_log st) ->
+  se_new_events c st (OpRx key now) = [SeRx key sid].
+Proof.
+  intros c ops st key sid now H Ha Hrx Hnd.
+  destruct (se_reachable c ops st H) as [[Hinv _] | [(_ & Hd & _) _]]; [|congruence].
+  destruct Hinv as (Hk & Hi & _ & _ & Hl & m & Hm & Hp & _ & ND & Hiff).
+  rewrite (Hl Ha) in Hiff. cbn [map] in Hiff.
+  apply in_split in Hrx. destruct Hrx as (pre & post & E). rewrite E in Hm.
+  apply se_mon_run_split in Hm. destruct Hm as (m0 & m1 & R0 & S & R1).
+  destruct (se_mon_run_wf _ _ _ se_mwf_init R0) as [W0 _].
+  assert (Hin: In (sid, key) (mo_live m0)).
+  { unfold se_mon_step in S. destruct (mo_pending m0); [discriminate|].
+    destruct (se_mon_has sid key (mo_live m0)) eqn:Hh; [|discriminate].
+    apply se_mon_has_iff; auto. }
+  assert (m1 = m0).
+  { unfold se_mon_step in S. destruct (mo_pending m0); [discriminate|].
+    destruct (se_mon_has sid key (mo_live m0)); [|discriminate]. inversion S; auto. }
+  subst m1.
+  assert (Hl': In (sid, key) (mo_live m)).
+  { apply (se_live_persist post m0 m sid key W0 R1 Hin).
+    intro Hd. apply Hnd. rewrite E. apply in_or_app. right. right. exact Hd. }
+  apply Hiff in Hl'. rewrite app_nil_r in Hl'. apply se_pair_in_map in Hl'.
+  destruct Hl' as (s & Hs & E1 & E2).
+  cbn [se_new_events].
+  destruct (se_find key (st_tbl st)) as [s'|] eqn:Hf.
+  - apply se_find_In in Hf. destruct Hf as [Hs' Ek'].
+    assert (s' = s).
+    { apply (se_nodup_key_unique (st_tbl st)); auto. congruence. }
+    subst s'. rewrite E1. reflexivity.
+  - exfalso. eapply se_find_none; eauto.
+Qed.
+
+(* coap_free_context: nothing stays in the endpoint; with no application reference
+   outstanding nothing is left behind at all and every session got its DEL + release *)
+Lemma se_filter_app_count : forall l : list Z,
+  (Z.of_nat (length l) - (Z.of_nat (length l) -
+     Z.of_nat (length (filter (fun h => h =? se_h_app) l))) =? 0) = negb (se_has se_h_app l).
+Proof.
+  induction l as [|h r IH]; cbn [filter se_has length]; [reflexivity|].
+  destruct (Z.eqb_spec h se_h_app).
+  - cbn [length negb]. rewrite !Nat2Z.inj_succ. apply Z.eqb_neq. lia.
+  - rewrite Nat2Z.inj_succ. rewrite <- IH. f_equal. lia.
+Qed.
+
+Lemma se_drop_lib_ref : forall s, ss_ref s = Z.of_nat (length (ss_holders s)) ->
+  (ss_ref (se_drop_lib s) =? 0) = negb (se_has se_h_app (ss_holders s)).
+Proof.
+  intros s E. cbn [se_drop_lib ss_ref]. rewrite E. apply se_filter_app_count.
+Qed.
+
+Theorem se_teardown_empty : forall c ops st,
+  se_run c se_init ops = Some st -> se_op_ok st OpFreeContext = true ->
+  let st' := se_step c st OpFreeContext in
+  st_tbl st' = [] /\ st_alive st' = false /\
+  (forall s, In s (st_leaked st') ->
+     exists s0, In s0 (st_tbl st) /\ ss_id s0 = ss_id s /\ In se_h_app (ss_holders s0)) /\
+  ((forall s, In s (st_tbl st) -> ~ In se_h_app (ss_holders s)) ->
+     st_leaked st' = [] /\ se_log_closed (st_log st') = true).
+Proof.
+  intros c ops st H Hok. cbn zeta.
+  unfold se_op_ok in Hok. apply andb_true_iff in Hok. destruct Hok as [Ha _].
+  destruct (se_reachable c ops st H) as [[Hinv _] | [(_ & Hd & _) _]]; [|congruence].
+  pose proof (se_dead_free_context st Ha Hinv) as (Ht & Hal & m & Hm & Hp & _ & _ & Hiff).
+  destruct Hinv as (_ & _ & _ & Hh & Hl & _).
+  cbn [se_step]. splits; auto.
+  - intros s Hs. unfold se_free_context in Hs. rewrite se_teardown_sweep in Hs.
+    cbn [st_leaked] in Hs. rewrite (Hl Ha) in Hs. cbn [app] in Hs.
+    apply filter_In in Hs. destruct Hs as [Hs Hr]. rewrite in_map_iff in Hs.
+    destruct Hs as (s0 & E & Hs0). subst s. exists s0. splits; auto.
+    rewrite Forall_forall in Hh. rewrite (se_drop_lib_ref s0 (Hh s0 Hs0)) in Hr.
+    rewrite negb_involutive in Hr. apply se_has_In. exact Hr.
+  - intros Hno.
+    assert (Hlk: st_leaked (se_free_context st) = []).
+    { unfold se_free_context. rewrite se_teardown_sweep. cbn [st_leaked]. rewrite (Hl Ha). cbn [app].
+      rewrite Forall_forall in Hh.
+      induction (st_tbl st) as [|x r IH]; cbn [map filter]; [reflexivity|].
+      rewrite (se_drop_lib_ref x (Hh x (or_introl eq_refl))).
+      assert (se_has se_h_app (ss_holders x) = false) as ->.
+      { destruct (se_has se_h_app (ss_holders x)) eqn:E; auto.
+        apply se_has_In in E. exfalso. apply (Hno x); [left; auto | exact E]. }
+      cbn [negb]. apply IH.
+      - intros s Hs. apply Hh. right; auto.
+      - intros s Hs. apply Hno. right; auto. }
+    split; auto. unfold se_log_closed. rewrite Hm, Hp.
+    rewrite Ht, Hlk in Hiff. cbn [map app] in Hiff.
+    destruct (mo_live m) as [|[a b] r]; [reflexivity|].
+    exfalso. apply (Hiff a b). left; reflexivity.
+Qed.
+
+(* ------------------------------------------------------------------ non-vacuity and witnesses *)
+Definition se_example_cfg : se_cfg := mkCfg 2 2.
+
+(* three peers with an idle limit of two, an application reference, a queue node, a timeout
+   and the teardown *)
+Definition se_example_ops : list se_op :=
+  [OpRx 10 1000; OpRx 11 1001; OpAdd 1 se_h_app; OpAdd 2 se_h_lib; OpRx 12 1002;
+   OpRx 13 1003; OpRx 10 1500; OpRem 2 se_h_lib; OpPrepare 3002; OpPrepare 3003;
+   OpRem 1 se_h_app; OpPrepare 9000; OpRx 11 9001; OpFreeContext].
+
+Example se_example_run :
+  match se_run se_example_cfg se_init se_example_ops with
+  | Some st =>
+      st_log st =
+      [SeNew 1 10; SeRx 10 1; SeNew 2 11; SeRx 11 2; SeNew 3 12; SeRx 12 3;
+       SeNew 4 13; SeRx 13 4; SeRx 10 1; SeDel 2; SeFree 2; SeDel 3; SeFree 3; SeDel 4; SeFree 4;
+       SeDel 1; SeFree 1; SeNew 5 11; SeRx 11 5; SeDel 5; SeFree 5] /\
+      st_leaked st = [] /\ se_log_closed (st_log st) = true
+  | None => False
+  end.
+Proof. vm_compute. repeat split; reflexivity. Qed.
+
+(* the idle limit pushes out the oldest idle session *)
+Example se_example_evict :
+  match se_run (mkCfg 300 2) se_init [OpRx 10 1000; OpRx 11 1001; OpRx 12 1002] with
+  | Some st => st_log st = [SeNew 1 10; SeRx 10 1; SeNew 2 11; SeRx 11 2; SeDel 1; SeFree 1;
+                            SeNew 3 12; SeRx 12 3]
+  | None => False
+  end.
+Proof. vm_compute. reflexivity. Qed.
+
+(* coap_free_context while the application holds a reference leaves the session behind:
+   "everything is released" does not hold for that history (libcoap behaves like this) *)
+Theorem se_teardown_with_app_reference_refuted :
+  exists ops st, se_run se_example_cfg se_init ops = Some st /\ st_alive st = false /\
+                 st_leaked st <> [] /\ se_log_closed (st_log st) = false.
+Proof.
+  exists [OpRx 10 1000; OpAdd 1 se_h_app; OpFreeContext].
+  eexists. split; [vm_compute; reflexivity|]. cbn. repeat split; discriminate.
+Qed.
+
+(* ------------------------------------------------------------------ summary statements *)
+(* what an accepted event log guarantees (any log: the model's or the implementation's) *)
+Definition se_log_bracketed (log : list se_ev) : Prop :=
+  (* never two SESSION_NEW for one session *)
+  (forall l1 s k1 l2 k2 l3, log = l1 ++ SeNew s k1 :: l2 ++ SeNew s k2 :: l3 -> False) /\
+  (* never two SESSION_DEL for one session *)
+  (forall l1 s l2 l3, log = l1 ++ SeDel s :: l2 ++ SeDel s :: l3 -> False) /\
+  (* SESSION_DEL comes after the session's SESSION_NEW and the release follows at once *)
+  (forall pre s rest, log = pre ++ SeDel s :: rest ->
+     (exists rest', rest = SeFree s :: rest') /\ (exists k, In (SeNew s k) pre)) /\
+  (* a release happens only right after the SESSION_DEL of that session *)
+  (forall pre s rest, log = pre ++ SeFree s :: rest -> exists pre', pre = pre' ++ [SeDel s]).
+
+Definition se_log_injective (log : list se_ev) : Prop :=
+  (* a datagram is handled by a session created for its peer that still exists *)
+  (forall pre k s post, log = pre ++ SeRx k s :: post -> In (SeNew s k) pre /\ ~ In (SeDel s) pre) /\
+  (* different peers -> different sessions *)
+  (forall k1 k2 s, In (SeRx k1 s) log -> In (SeRx k2 s) log -> k1 = k2) /\
+  (* same peer -> same session while that session exists *)
+  (forall l1 k s1 l2 s2 l3, log = l1 ++ SeRx k s1 :: l2 ++ SeRx k s2 :: l3 ->
+     ~ In (SeDel s1) l2 -> s1 = s2).
+
+Theorem se_log_ok_sound : forall log,
+  se_log_ok log = true -> se_log_bracketed log /\ se_log_injective log.
+Proof.
+  intros log Hok. split; [unfold se_log_bracketed | unfold se_log_injective]; splits.
+  - apply se_ok_new_once; auto.
+  - apply se_ok_del_once; auto.
+  - apply se_ok_del_then_free; auto.
+  - apply se_ok_free_after_del; auto.
+  - apply se_ok_rx_live; auto.
+  - apply se_ok_rx_injective; auto.
+  - apply se_ok_rx_functional; auto.
+Qed.
+
+Theorem se_events_bracketed : forall c ops st,
+  se_run c se_init ops = Some st -> se_log_bracketed (st_log st).
+Proof. intros c ops st H. apply se_log_ok_sound. eapply se_run_log_ok; eauto. Qed.
+
+Theorem se_functional_injective : forall c ops st,
+  se_run c se_init ops = Some st ->
+  se_log_injective (st_log st) /\
+  (forall s1 s2, In s1 (st_tbl st) -> In s2 (st_tbl st) ->
+     (ss_key s1 = ss_key s2 <-> s1 = s2) /\ (ss_id s1 = ss_id s2 <-> s1 = s2)).
+Proof.
+  intros c ops st H. split.
+  - apply se_log_ok_sound. eapply se_run_log_ok; eauto.
+  - intros s1 s2. eapply se_table_injective; eauto.
 Qed.
